@@ -42,8 +42,13 @@ class Violation:
         self.replay = replay
 
 
+CURRENT = None   # the report of the running check (read by mc.run when a check aborts after it has already found violations)
+
+
 class Report:
     def __init__(self, prop: str, tier: str, level: str):
+        global CURRENT
+        CURRENT = self
         self.prop = prop
         self.tier = tier
         self.level = level
